@@ -478,6 +478,14 @@ func (runInfo *runInfoStruct) invokeLetDerefExpr(expr *ast.DerefExpr) {
 		runInfo.rv = nilValue
 		return
 	}
+	if runInfo.rv.CanInterface() {
+		if _, isType := runInfo.rv.Interface().(reflect.Type); isType {
+			// the value of make(type ...): a type is not a place - Go keeps type descriptors in read-only memory
+			runInfo.err = newStringError(expr, "pointer target cannot be assigned")
+			runInfo.rv = nilValue
+			return
+		}
+	}
 	elem := runInfo.rv.Elem()
 	if !elem.CanSet() {
 		runInfo.err = newStringError(expr, "pointer target cannot be assigned")
